@@ -13,6 +13,7 @@
 -/
 import LpModel.Basic
 import LpModel.C11.Constants
+import LpModel.C11.Features
 namespace Lp.C11
 
 /-! ## helpers -/
@@ -444,13 +445,26 @@ inductive NMStep where
   | nmax
   | cont (s : NM) (tr : List EvN)
 
+/-- the simplex has shrunk to the resolution of the coordinates of its best vertex:
+    `|p[i][j] - p[ilo][j]| <= c * ndim * eps * |p[ilo][j]|` for every vertex and coordinate.
+    Mirrors the return added to the source for that case; `false` while the source has none
+    (`Feat.collapseFactor = none`). -/
+def collapsed (ndim : Nat) (p : List Pt) (ilo : Nat) : Bool :=
+  match Feat.collapseFactor with
+  | none => false
+  | some c =>
+    let res := rnd (rnd (c * (ndim : Rat)) * ZEPS)
+    let plo := p.getD ilo []
+    p.all (fun row => (List.range ndim).all (fun j =>
+      decide (¬ rabs (rnd (row.getD j 0 - plo.getD j 0)) > rnd (res * rabs (plo.getD j 0)))))
+
 /-- one pass through the body of `for(;;)` -/
 def nmStep (ftol : Rat) (ndim : Nat) (s : NM) : NMStep :=
   let c := scan s.y
   let yhi := s.y.getD c.ihi 0
   let ylo := s.y.getD c.ilo 0
   let rtol := rnd (rnd (K.nmRtolTwo * rabs (rnd (yhi - ylo))) / rnd (rnd (rabs yhi + rabs ylo) + rnd TINYN))
-  if rtol < ftol then
+  if rtol < ftol ∨ collapsed rnd ndim s.p c.ilo = true then
     let y' := swap0 s.y c.ilo 0
     let p' := swap0 s.p c.ilo []
     .done (p'.getD 0 []) (y'.getD 0 0) { s with y := y', p := p' } (rmin c.m (mc rtol ftol))
